@@ -95,6 +95,7 @@ class UnitBuilder:
         u2.by_contract = set()
         for pat in self.uspec.by_contract:
             u2.by_contract |= set(self.glob_fns(pat))
+        for q in self.uspec.use_enums: u2.use_enum(q)
         u2.translate(sorted(roots))
         text = u2.emit(extra_includes=self.uspec.includes)
         self.text_cache[key] = (text, u2)
@@ -139,7 +140,7 @@ def run_query(builder, q, vars_, tier, workroot):
         target = targets[0]; res.target = target
         selfstubs = {target} if q.selfstub else set()
         canaries = {target}
-        slices = tuple((subst(fn, vars_).replace('TARGET', target), k, int(subst(i, vars_)), n) for (fn, k, i, n) in q.switch_slice)
+        slices = tuple((subst(fn, vars_).replace('TARGET', target), k, (i if i in ('only', 'except') else int(subst(i, vars_))), n) for (fn, k, i, n) in q.switch_slice)
         roots = {target}
         for pat in q.also:
             m = builder.glob_fns(subst(pat, vars_))
@@ -176,7 +177,7 @@ def run_query(builder, q, vars_, tier, workroot):
         for pat in q.replace:
             pat = subst(pat, vars_)
             m = [c for c in list(u2.fn_text.keys()) + stubs if fnmatch.fnmatchcase(c, pat)]
-            if not m:
+            if not m and '*' not in pat:
                 res.reason = 'replace pattern %r matches nothing' % pat; return res
             replace |= set(m)
         for s in stubs:
